@@ -378,6 +378,79 @@ def generate(rng: random.Random, tier: str):
                                       {"a": pos, "depth": depth, "types_after": [[w.type.name, w.attrs] for w in ta]})
 
 
+    # join sweep (appended stream): can_join and join_point (both directions) at EVERY node boundary of a few documents -
+    # the answers hinge on how many siblings remain (Node.can_replace(index, index + 1)), which sampled positions rarely hit
+    for fam in gen.FAMILY:
+        g, docs = S.family_docs(rng, fam, 4 if quick else 25)
+        info = S.info_for(fam)
+        for doc in docs:
+            for pos in S.boundary_positions(doc):
+                qs = [(f"(QCanJoin {nat(pos)})", lambda: structure.can_join(doc, pos), "optbool", "can_join", {"q": "can_join", "pos": pos})]
+                for d in (-1, 1):
+                    qs.append((f"(QJoinPoint {nat(pos)} {b(d > 0)})", lambda d=d: structure.join_point(doc, pos, d), "optnat",
+                               "join_point", {"q": "join_point", "pos": pos, "dir": d}))
+                for qterm, f, akind, kind, qdesc in qs:
+                    term, short = _answer(info, f, akind)
+                    yield Case(coq=f"CStruct @S@ {info.node(doc)} {qterm} {term}",
+                               desc={"case": "struct", "family": fam, "doc": doc.to_json(), "query": qdesc, "answer": short},
+                               schema=info.schema_term(), kind=f"struct:{kind}-sweep/{short.split(':')[0] if short.startswith('error') else 'ok'}",
+                               nontrivial=True)
+
+
+    # the same sweep over documents with a bounded-arity container (family "trio": content "block{2,3}")
+    yield from trio_cases(rng, 6 if quick else 40)
+
+
+def trio_cases(rng, n):
+    fam = "trio"
+    sc = gen.family(fam)
+    info = S.info_for(fam)
+    g = gen.DocGen(sc, rng)
+    N = sc.nodes
+
+    def p_(t):
+        return N["paragraph"].create(None, sc.text(t))
+
+    def block(depth):
+        r = rng.random()
+        if r < 0.3:
+            return N["blockquote"].create(None, [p_("q")] + ([p_("r")] if rng.random() < 0.4 else []))
+        if r < 0.5:
+            return N["bullet_list"].create(None, [N["list_item"].create(None, p_("i")) for _ in range(rng.randint(1, 2))])
+        if r < 0.7 and depth < 2:
+            return trio(depth + 1)
+        return p_(rng.choice(["a", "bc"]))
+
+    def trio(depth):
+        return N["trio"].create(None, [block(depth) for _ in range(rng.randint(2, 3))])
+    def bq(t):
+        return N["blockquote"].create(None, p_(t))
+
+    def ul(t):
+        return N["bullet_list"].create(None, N["list_item"].create(None, p_(t)))
+    fixed = [N["doc"].create(None, N["trio"].create(None, [mk("a"), mk("b"), mk("c")][:k]))
+             for mk in (bq, ul, p_) for k in (3, 2)]
+    fixed.append(N["doc"].create(None, [N["trio"].create(None, [bq("a"), N["trio"].create(None, [bq("b"), bq("c"), bq("d")]), bq("e")])]))
+    for k in range(len(fixed) + n):
+        doc = fixed[k] if k < len(fixed) else N["doc"].create(None, [trio(0)] + ([block(0)] if rng.random() < 0.5 else []))
+        doc.check()
+        docs = [doc]
+        for pos in S.boundary_positions(doc):
+            qs = [(f"(QCanJoin {nat(pos)})", lambda: structure.can_join(doc, pos), "optbool", "can_join", {"q": "can_join", "pos": pos})]
+            for d in (-1, 1):
+                qs.append((f"(QJoinPoint {nat(pos)} {b(d > 0)})", lambda d=d: structure.join_point(doc, pos, d), "optnat",
+                           "join_point", {"q": "join_point", "pos": pos, "dir": d}))
+            for qterm, f, akind, kind, qdesc in qs:
+                term, short = _answer(info, f, akind)
+                yield Case(coq=f"CStruct @S@ {info.node(doc)} {qterm} {term}",
+                           desc={"case": "struct", "family": fam, "doc": doc.to_json(), "query": qdesc, "answer": short},
+                           schema=info.schema_term(), kind=f"struct:{kind}-trio/{short.split(':')[0] if short.startswith('error') else 'ok'}",
+                           nontrivial=True)
+            # ... and the promise: an approved join then succeeds and gives a valid document
+            yield helper_case(rng, fam, g, doc, docs, "can_join", {"a": pos})
+            yield helper_case(rng, fam, g, doc, docs, "join_point", {"a": pos, "dir": rng.choice([-1, 1])})
+
+
 def rebuild(desc):
     """re-run a recorded helper case on the current implementation (helpers whose arguments are all in the
     description: can_split, can_join, join_point, lift_target, drop_point)"""
